@@ -25,19 +25,23 @@ LEVEL_NOTE = ("Trusted: Lean kernel; the hand model lean/GrpcModel/Model/Control
               "the consumer goroutine's result and the set of reader goroutines still inside throttle() are compared with the model and judged by the monitor. "
               "One interleaving class IS forced: operations arriving while finish() is in the middle of its orphan sweep (finish is held inside an onOrphaned callback; "
               "the racing puts/gets must be parked on c.mu or have returned before it is released) - a finish that drops the lock there accepts or serves them and is "
-              "reported. The individual interleavings of a reader's trfChan.Load with its wait and with concurrent get/put/finish (the lost-wake-up window) cannot be "
+              "reported. Control buffers of one process are independent in the model (one St each); the tie runs up to four of them side by side and "
+              "operates on the others from inside the primary's orphan sweep, so state shared behind the model's back (the list-node pool) shows as a divergence / a "
+              "foreign or missing orphan. The individual interleavings of a reader's trfChan.Load with its wait and with concurrent get/put/finish (the lost-wake-up window) cannot be "
               "forced without hooks in throttle(); they are covered by the theorems (released_when_below_or_closed quantifies over them) only, and exercised "
               "opportunistically by the bubble's scheduler. executeAndPut with a non-nil f that returns false does not touch the buffer and is not driven. "
               "'Failed exactly once' for a stream-creation request rejected AFTER close is the error return of executeAndPut (the caller fails the stream), "
               "for one queued at close it is onOrphaned; one taken by the writer before close is not failed by the buffer at all. The writer is woken on close "
               "only through `done` (finish sends no wake-up token) - by design, the transport closes done right after finish.")
-GAP = "fine-grained schedules inside throttle(); dataFrame buffers freed in finish are not modelled (items are ping / serverHeaders / clientHeaders)"
+GAP = "a finish() that livelocks is detected by a scheduler-yield watchdog in the harness (no virtual-time timeout can see a spinning goroutine); fine-grained schedules inside throttle(); dataFrame buffers freed in finish are not modelled (items are ping / serverHeaders / clientHeaders)"
 ASSUMPTIONS = ["throttle limit >= 1 (envconfig clamps ControlBufferThrottleLimit to 1..10000)", "single consumer of get (loopy) - caller contract"]
 RULE = ("random cases: limit 1..5, then 10-45 ops from put throttled / unthrottled / clientHeaders, non-blocking get, blocking consumer goroutine, new reader "
         "goroutines calling throttle(), finish, done, with phases biased to push the throttled count across the limit in both directions repeatedly; plus "
         "directed fill-drain-refill cases per limit; `finishrace`: finish() is held inside the onOrphaned callback of its orphan sweep (harness hook in the "
         "clientHeaders the harness itself queued) while 1-4 puts / gets run in their own goroutines until each has returned or is parked on c.mu (read off the "
-        "goroutine dump), in ~60% of the random closes and in 3 directed cases per limit. Non-trivial = some reader was observed blocked; distinct = distinct op text.")
+        "goroutine dump), in ~60% of the random closes and in 3 directed cases per limit; `cb-multi`: 1-3 further control buffers of the same process (shared list-node pool) "
+        "get puts/gets, the primary buffer with 2-6 queued clientHeaders is closed with `finishcb` - puts/gets on the OTHER buffers are made from inside its "
+        "onOrphaned callbacks - then the other buffers are drained (FIFO checked) and closed. Non-trivial = some reader was observed blocked; distinct = distinct op text.")
 
 
 def one_case(rng, limit, n):
@@ -120,7 +124,62 @@ def one_case(rng, limit, n):
     return ops
 
 
+def multi_case(rng, limit):
+    """Several control buffers of one process (they share the package-level list-node pool): the primary one is closed while,
+    from inside its onOrphaned callbacks, other buffers are being used; afterwards the other buffers are drained and closed."""
+    ops = ["limit %d" % limit]
+    nid = 0
+    nb = rng.choice([1, 1, 2, 3])
+    q = {k: 0 for k in range(1, nb + 1)}
+    # some traffic first (also recycles list nodes through get)
+    for _ in range(rng.randrange(0, 8)):
+        r = rng.random()
+        if r < 0.5:
+            nid += 1
+            ops.append("put %s %d" % (rng.choice("tuh"), nid))
+        elif r < 0.65:
+            ops.append("get")
+        else:
+            k = rng.randrange(1, nb + 1)
+            if rng.random() < 0.7:
+                nid += 1
+                ops.append("b%d put %s %d" % (k, rng.choice("tuh"), nid)); q[k] += 1
+            else:
+                ops.append("b%d get" % k); q[k] = max(0, q[k] - 1)
+    # the primary's queue: several stream-creation requests (and other items in between)
+    for _ in range(rng.randrange(2, 7)):
+        nid += 1
+        ops.append("put h %d" % nid)
+        if rng.random() < 0.3:
+            nid += 1
+            ops.append("put %s %d" % (rng.choice("tu"), nid))
+    if rng.random() < 0.3:
+        ops.append("thr 1")
+    items = []
+    for _ in range(rng.randrange(1, 8)):
+        k = rng.randrange(1, nb + 1)
+        if rng.random() < 0.8:
+            nid += 1
+            items.append("b%d:p%s%d" % (k, rng.choice("hhtu"), nid)); q[k] += 1
+        else:
+            items.append("b%d:g" % k); q[k] = max(0, q[k] - 1)
+    ops.append("finishcb " + " ".join(items))
+    nid += 1
+    ops.append("put h %d" % nid)
+    # the other buffers must be intact: drain some, then close them
+    for k in range(1, nb + 1):
+        for _ in range(rng.randrange(0, q[k] + 2)):
+            ops.append("b%d get" % k)
+        if rng.random() < 0.8:
+            ops.append("b%d finish" % k)
+            nid += 1
+            ops.append("b%d put h %d" % (k, nid))
+    return ops
+
+
 def gen(rng, tier):
+    for i in range({"quick": 250, "thorough": 6000, "search": 2500}[tier]):
+        yield Case("s_controlbuf", multi_case(rng, rng.choice([1, 2, 3, 5])), "cb-multi")
     n = {"quick": 1000, "thorough": 30000, "search": 8000}[tier]
     for limit in (1, 2, 3, 4):
         # directed: fill to the limit, readers block, drain below, refill (new generation), close
